@@ -12,6 +12,11 @@ ENG = {
 
 # id: (engine, category, technique, level text, level note, design ref)
 CHECKS = {
+ "C14": ("E1+E4", "model_checking",
+   "stateless model checking of the implementation: the real FileCache.Set/Get + internal/file.WriteFile code (os import rewritten to a scheduling shim through go build -overlay) under a cooperative scheduler; DFS over all schedules of file-system steps with preemption bound 2/3 and unbounded with exact global-state pruning, crash choice at every writer step, torn (two-step) writes; porcupine linearizability check of every history against a per-URL register; plus kill injection on every file-system syscall of a real process (strace)",
+   "Every interleaving (within the stated bounds: <= 3 threads, <= 2 operations each, <= 2 crashes) of the file-system steps the working tree actually performs is executed on a real tmpfs directory; every Get must be a miss or a complete bundle stored for that URL, every history must be linearizable (a killed Set may or may not have taken effect), a post-mortem reader and lister must see only misses, complete entries and non-key temporary files. E4 kills a real process on entry to each syscall and lets a fresh process read.",
+   "Trusted: kernel rename/unlink/open-inode semantics, engine/sched + engine/osshim (replay determinism self-checked on every run), porcupine. Power loss (unsynced data) and more than 3 participants are outside the bound. The supplementary free-running -race pass of the design is not built.",
+   "DESIGN.md section 5 C14, section 3 E1/E4"),
  "C09": ("E3", "model_checking",
    "deviation-bounded exhaustive enumeration over a grammar of valid OCI and blob policy documents: every base document x every single rule-violating edit (one operator per rule) x every pair of edits, validity-preserving edits, plus exhaustive assembly from hand-labelled component alphabets; independent reference validator (iff oracle)",
    "Every generated document is validated by the real OCIDocument/BlobDocument.Validate and through verifier.NewVerifierWithOptions and the verdict is compared (iff) with a reference validator that works on hand-written valid/invalid labels of the component alphabets; every accepted statement must yield a level enforcing integrity unless it is skip.",
